@@ -103,6 +103,17 @@ def gen_rule_seeds(sdir):
               b'rule t : a a { condition: true }\n', b'rule t { meta: a = 1 a = 2 condition: true }\n',
               b'rule t { condition: for any i in (1..2) : ( for any i in (1..2) : ( i == 1 ) ) }\n',
               b'rule t { strings: $a = "x" condition: for any of them : ( for any of them : ( $ ) ) }\n']
+    # regexps at the boundaries of the regexp lexer / parser (class ranges ending at \xff, empty and maximal
+    # repeat intervals, empty alternatives, escapes) and long include names (with the long source path of
+    # the harness the resolved include path exceeds the lexer's 1024-byte path buffer)
+    for rx in ["[\\x00-\\xff]", "[\\x80-\\xff]{2}", "[a-\\xff]+", "[^\\x00-\\xff]", "[\\xfe-\\xff]", "[\\xff-\\xff]", "[]-a]", "[^]]", "[a-]", "\\xff\\x00",
+               "a{0}", "a{0,0}b", "a{,0}", "a{32767}", "a{0,32767}", "(a|)", "(a|b|)", "\\w\\W\\s\\S\\d\\D\\b\\B", "a??", "a*?b+?", "^$", "(^a|b$)", ".{1,3}?x", "[\\w-\\xff]",
+               "[\\d-z]", "\\/", "a\\.b", "[\\]]", "[\\x5d-\\xff]"]:
+        texts.append(("rule t { strings: $a = /%s/ condition: $a }\n" % rx).encode())
+        texts.append(("rule t { condition: \"abc\" matches /%s/ }\n" % rx).encode())
+    for n_ in (10, 200, 900, 1000, 1100, 2000):
+        texts.append(("include \"%s.yar\"\nrule t { condition: true }\n" % ("i" * n_)).encode())
+        texts.append(("include \"../%s/x.yar\"\nrule t { condition: true }\n" % ("j" * n_)).encode())
     seen = set()
     n = 0
     for t in texts:
@@ -112,8 +123,15 @@ def gen_rule_seeds(sdir):
         seen.add(h)
         # first byte = harness options (externals defined, includes served)
         with open(os.path.join(sdir, "r%04d" % n), "wb") as f:
-            f.write(bytes([0x18 | (n % 4)]) + t)
+            f.write(bytes([0x18 | (n % 4) | ((n // 4) % 4) << 6]) + t)
         n += 1
+        if t.startswith(b"include \""):
+            # include directives through file and fd sources under every source-name shape
+            for shape in range(4):
+                for how in (2, 3):
+                    with open(os.path.join(sdir, "r%04d" % n), "wb") as f:
+                        f.write(bytes([0x18 | how | shape << 6]) + t)
+                    n += 1
     return n
 
 
